@@ -4,7 +4,7 @@ from __future__ import annotations
 
 from ..analyses.own import CONV_MUTATORS, RECORD_FIELDS, Own, in_scope, param_mutations
 from ..report import Cx, Ob, describe, obligation
-from ..rules import LISTS, MUTATORS, TABLES, bind_args, where
+from ..rules import LISTS, MUTATORS, TABLES, bind_args, construct_of_plain_strings, where
 from ..terms import callee_name, is_const, op, show, subterms
 
 describe(
@@ -296,8 +296,9 @@ def loaders_copy_their_input(cx: Cx, ob: Ob) -> None:
                     continue
                 vals = [v for _, v in c[3]] + list(c[2])
                 copied = all(any(op(y) == "call" and y[1] in (("builtin", "list"), ("builtin", "sorted"), ("builtin", "tuple")) or (op(y) == "call" and callee_name(y) in ("copy", "deepcopy")) for y in subterms(v)) for v in vals if isinstance(v, tuple) and op(v) not in ("const",))
-                if copied:
-                    ob.site(f"{where(m, ev.line)} {m.qualname}", "model_construct from copied values")
+                scalars_only = not c[2] and all(k in ("prefix", "uri_prefix", "pattern") for k, _ in c[3])
+                if copied or scalars_only or construct_of_plain_strings(c):
+                    ob.site(f"{where(m, ev.line)} {m.qualname}", "model_construct from copied values or of string fields only")
                     continue
                 ob.violate(
                     m.qualname,
